@@ -128,7 +128,6 @@ func (fs *FileStorage) GetMessages(offset uint64) ([]storage.Message, error) {
 		msgs []storage.Message
 		err  error
 		row  []byte
-		data storage.Message
 	)
 	fs.mu.Lock()
 	defer fs.mu.Unlock()
@@ -147,6 +146,9 @@ func (fs *FileStorage) GetMessages(offset uint64) ([]storage.Message, error) {
 		}
 
 		row = scanner.Bytes()
+		// a fresh value per line: a line that leaves a field out must not be
+		// read back with the field of the line in front of it
+		var data storage.Message
 		if err = json.Unmarshal(row, &data); err != nil {
 			return nil, fmt.Errorf("failed to unmarshal a message %s: %w", string(row), err)
 		}
